@@ -275,6 +275,25 @@ def run_reject(ctx, pt):
         must_reject(ctx, 'C02/threefish/undefined-block-size-accepted', lambda: Threefish(ramp(pt[1]), bytes(16)).dec(ramp(pt[2])))
 
 
+def pts_inter(tier):
+    return [(a, b) for a in F.CIPHERS for b in F.CIPHERS]
+
+
+def run_inter(ctx, pt):
+    """two live objects: A is constructed, then B (another cipher / size / key), then both are used, A first"""
+    a, b = pt
+    ka, kb = F.fixed_keys(a)[1], F.fixed_keys(b)[2]
+    ta, tb = ramp(16, 3, 7), expander(16, 9)
+    A = F.make(a, ka, ta)
+    B = F.make(b, kb, tb)
+    for (c, o, k, t) in ((a, A, ka, ta), (b, B, kb, tb), (a, A, ka, ta)):
+        blk = F.fixed_blocks(c)[2]
+        tw = t if c.startswith('tf') else None
+        ct = F.ref_enc(c, k, blk, tw)
+        ctx.eq('C02/%s/enc/with-another-live-instance' % c, ctx.attempt(o.enc, blk), ('ok', ct))
+        ctx.eq('C02/%s/dec/with-another-live-instance' % c, ctx.attempt(o.dec, ct), ('ok', blk))
+
+
 def selftest():
     try:
         return {'aes_des_tdea_reference_vs_openssl_kat_blocks': R.selftest(), 'serpent_reference_nessie': RS.selftest(),
@@ -289,8 +308,10 @@ def subchecks():
         Sub('tables', pts_tables, run_tables, engine='D', chunk=1,
             bound='AES S-box and inverse (256 entries, vs algebraic construction); DES S(n,x) all 8x64 cells; IP/IPinv/PC1/PC2/E/P on every single-bit input; subkey(k,r) r=0..15 on the 56 single-bit k; Serpent _S/_Sinv 8 boxes x 32 positions x 16 values'),
         Sub('known-answer', pts_kat, run_kat, engine='P', exhaustive=False,
-            bound='per cipher: key family (single-bit keys, 254 repeated-byte keys, patterns, DES weak/semi-weak/parity variants) x 3 blocks; 3 keys x block family; Threefish tweak family; enc, dec of the ciphertext and dec of the plaintext block vs reference (quick: every 4th family member)'),
+            bound='per cipher: key family (single-bit keys, 254 repeated-byte keys, patterns, DES weak/semi-weak/parity variants, Threefish keys whose parity word is 0,1,3,2^32-1,2^32,2^63-1,2^63,2^64-2,2^64-1, AES/Serpent keys with equal / complementary words) x 3 blocks; 3 keys x block family; Threefish tweak family; enc, dec of the ciphertext and dec of the plaintext block vs reference (quick: every 4th family member)'),
         Sub('key-forms', pts_forms, run_forms, engine='P', bound='Serpent every key length 1..32 bytes x 5 patterns; TDEA every keying form x key relation'),
+        Sub('interleaved-instances', pts_inter, run_inter, engine='H',
+            bound='every ordered pair of the 9 cipher configurations: A constructed, then B, then A.enc/dec, B.enc/dec, A.enc/dec vs reference'),
         Sub('reject', pts_reject, run_reject, engine='P', bound='key / tweak / block lengths around and away from the defined sizes: must raise'),
     ]
 
